@@ -78,6 +78,9 @@ def enc (M : Meta) : List (Nat × Bytes) → Nat → Bytes
   | [], _ => []
   | (b, v) :: r, off => zeros (padTo (M.align b) off) ++ v ++ enc M r (off + padTo (M.align b) off + v.length)
 
+/-- offset (from the start of the radiotap header) right after the fields `fs` laid out from `off` -/
+def encEnd (M : Meta) (fs : List (Nat × Bytes)) (off : Nat) : Nat := off + (enc M fs off).length
+
 /-- OR of the present flags of the listed fields -/
 def presentWord (fs : List (Nat × Bytes)) : Nat := fs.foldl (fun w f => w ||| 2 ^ f.1) 0
 
@@ -85,6 +88,64 @@ def canonL (M : Meta) (fs : List (Nat × Bytes)) : Bytes := le32 (presentWord fs
 
 /-- canonical options payload of a last-write map -/
 def canonical (M : Meta) (m : FMap) : Bytes := canonL M (fieldList M m)
+
+/-! ### headers with a chain of present words
+
+  A parsed header may carry more than one present word (bit 31 = another word follows; bit 29 / 30 announce a
+  radiotap / vendor namespace) and bytes the setters do not own: data of fields this table has no entry for, of
+  later namespaces, of vendor namespaces.  `Frame` is that part of a header; `layL M F fs` is the header in which the
+  fields `fs` of the *first* present word sit, in bit order, at their aligned offsets between the present words and
+  the foreign bytes.  `canonL M fs` is the special case of the empty frame. -/
+
+structure Frame where
+  /-- the bits of the first present word that are not fields of the table: undefined fields, namespace bits, bit 31 -/
+  hb : Nat
+  /-- the present words after the first one -/
+  wsb : Bytes
+  /-- everything after the fields of the first present word -/
+  tail : Bytes
+deriving DecidableEq, Repr
+
+def Frame.nil : Frame := { hb := 0, wsb := [], tail := [] }
+
+/-- offset, counted from the start of the radiotap header, of the first field -/
+def Frame.base (F : Frame) : Nat := 8 + F.wsb.length
+
+/-- number of present words after the first one -/
+def Frame.k (F : Frame) : Nat := F.wsb.length / 4
+
+/-- the last present word (meaningful when `0 < F.k`) -/
+def Frame.lastWord (F : Frame) : Nat := read32 F.wsb (4 * (F.k - 1))
+
+def layL (M : Meta) (F : Frame) (fs : List (Nat × Bytes)) : Bytes :=
+  le32 (presentWord fs ||| F.hb) ++ F.wsb ++ enc M fs F.base ++ F.tail
+
+/-- the header in which the bytes behind the first present word's fields are the fields `fsK` of the *last* present
+    word at their aligned offsets (what libtins' parser reads next), then `rest` (`F.tail` is not used) -/
+def lay2 (M : Meta) (F : Frame) (fs0 fsK : List (Nat × Bytes)) (rest : Bytes) : Bytes :=
+  layL M { F with tail := enc M fsK (encEnd M fs0 F.base) ++ rest } fs0
+
+/-- the frame is a well-formed chain: `hb` owns no table bit and fits 32 bits, the later words are whole, bit 31 is
+    set in every word but the last -/
+def Frame.ok (M : Meta) (F : Frame) : Prop :=
+  F.hb < 4294967296 ∧ (∀ c, c < M.max → F.hb.testBit c = false) ∧ F.wsb.length % 4 = 0 ∧
+  F.hb.testBit 31 = decide (0 < F.k) ∧
+  (∀ j, j < F.k - 1 → extSet (read32 F.wsb (4 * j)) = true) ∧
+  (0 < F.k → extSet F.lastWord = false)
+
+instance (M : Meta) (F : Frame) : Decidable (F.ok M) := by unfold Frame.ok; exact inferInstance
+
+/-- the last present word announces no field of the table: libtins' parser, which reads the fields of the first and
+    of the last present word, never walks into the foreign bytes -/
+def Frame.inert (M : Meta) (F : Frame) : Prop := 0 < F.k → ∀ c, c < M.max → F.lastWord.testBit c = false
+
+instance (M : Meta) (F : Frame) : Decidable (F.inert M) := by unfold Frame.inert; exact inferInstance
+
+/-- alignment of the fields above bit 0 divides 4, so the first field after a chain of present words needs no
+    padding unless it is field 0 -/
+def Meta.lowAlign (M : Meta) : Prop := ∀ b, b < M.max → 0 < b → 4 % M.align b = 0
+
+instance (M : Meta) : Decidable M.lowAlign := by unfold Meta.lowAlign; exact inferInstance
 
 /-- every written value has the size the standard gives its field -/
 def sized (M : Meta) (m : FMap) : Prop := ∀ b v, m b = some v → b < M.max ∧ v.length = M.size b
@@ -121,5 +182,83 @@ def decodeCanonical (M : Meta) (buf : Bytes) : Option (List (Nat × Bytes)) :=
   | none => none
 
 def mapOfList (fs : List (Nat × Bytes)) : FMap := lastWrite FMap.empty fs
+
+/-- index of the last present word of a chain that fits the buffer -/
+def chainLen : Nat → Bytes → Nat → Option Nat
+  | 0, _, _ => none
+  | fuel + 1, buf, i =>
+    if 4 * i + 4 ≤ buf.length then
+      if extSet (read32 buf (4 * i)) then chainLen fuel buf (i + 1) else some i
+    else none
+
+/-- split a parsed options payload into frame and first-word fields, when it is *well aligned*: the chain of present
+    words fits, every table field of the first word fits at its aligned offset, the padding bytes are zero — i.e.
+    the payload is exactly `layL M F fs` for a well-formed frame `F` -/
+def decodeLayout (M : Meta) (buf : Bytes) : Option (Frame × List (Nat × Bytes)) :=
+  match chainLen (buf.length / 4 + 1) buf 0 with
+  | none => none
+  | some k =>
+    let w0 := read32 buf 0
+    match decodeFields M buf w0 M.max 0 (8 + 4 * k) with
+    | none => none
+    | some fs =>
+      let F : Frame := { hb := w0 - w0 % 2 ^ M.max, wsb := (buf.drop 4).take (4 * k),
+                         tail := buf.drop (4 + 4 * k + (enc M fs (8 + 4 * k)).length) }
+      if layL M F fs == buf ∧ F.ok M then some (F, fs) else none
+
+/-- a well-aligned payload in which, in addition, the bytes behind the first present word's fields are the well-aligned
+    fields of the *last* present word (zero padding, every announced table field fits) followed by `rest`: first-word
+    fields (not empty), last-word fields, rest -/
+def decodeLayout2 (M : Meta) (buf : Bytes) : Option (Frame × List (Nat × Bytes) × List (Nat × Bytes) × Bytes) :=
+  match decodeLayout M buf with
+  | none => none
+  | some (F, fs0) =>
+    if F.k = 0 ∨ fs0 = [] then none else
+    let off := encEnd M fs0 F.base
+    match decodeFields M buf F.lastWord M.max 0 off with
+    | none => none
+    | some fsK =>
+      let e := enc M fsK off
+      if F.tail.take e.length = e ∧ (∀ c, c < M.max → F.lastWord.testBit c = (presentWord fsK).testBit c)
+      then some (F, fs0, fsK, F.tail.drop e.length) else none
+
+/-! ### what a parser of an options buffer may report (radiotap standard; used by the oracle of `walk` / `skipto`) -/
+
+/-- the present words of an options buffer: word `i + 1` exists iff word `i` has bit 31; `none` when the chain
+    does not fit the buffer -/
+def stdChain : Nat → Bytes → Nat → Option (List Nat)
+  | 0, _, _ => none
+  | fuel + 1, buf, i =>
+    if 4 * i + 4 ≤ buf.length then
+      let w := read32 buf (4 * i)
+      if w / 2147483648 % 2 = 1 then (stdChain fuel buf (i + 1)).map (w :: ·) else some [w]
+    else none
+
+/-- a field a parser reports: bit, offset in the options buffer, value (`none` = the field starts inside the
+    buffer but does not end inside it) -/
+structure StdItem where
+  bit : Nat
+  off : Nat
+  val : Option Bytes
+deriving DecidableEq, Repr
+
+/-- the defined fields (`bit < M.max`) of the present word `w`, laid out from buffer offset `cur` on, each at the
+    next offset that is aligned counted from the radiotap header (4 bytes before the buffer); stops at the first
+    field that does not start inside the buffer.  Returns the fields, the offset after the last one, and whether
+    all fields of the word were reached. -/
+def stdFieldsOf (M : Meta) (buf : Bytes) (w : Nat) : Nat → Nat → Nat → List StdItem × Nat × Bool
+  | 0, _, cur => ([], cur, true)
+  | n + 1, b, cur =>
+    if w / 2 ^ b % 2 = 1 then
+      let off := cur + padTo (M.align b) (cur + 4)
+      if off < buf.length then
+        let v := if off + M.size b ≤ buf.length then some ((buf.drop off).take (M.size b)) else none
+        let r := stdFieldsOf M buf w n (b + 1) (off + M.size b)
+        ({ bit := b, off := off, val := v } :: r.1, r.2.1, r.2.2)
+      else ([], cur, false)
+    else stdFieldsOf M buf w n (b + 1) cur
+
+/-- namespace of the word that follows `w`: 0 = radiotap (bit 29), 1 = vendor (bit 30), 2 = neither -/
+def stdNsAfter (w : Nat) : Nat := if w / 536870912 % 2 = 1 then 0 else if w / 1073741824 % 2 = 1 then 1 else 2
 
 end Tins.RT
